@@ -50,7 +50,7 @@ let () = iter_lines (fun line ->
   match split_ws line with
   | [op; _; _; _; kind; off; def; disc; doff; data; ptrs; arg] ->
     (try
-      if op = "size" then begin
+      if op = "size" || op = "lsize" then begin
         let n = { nd_id = Z0; nd_dwc = z_of_dec off; nd_pc = z_of_dec def; nd_isgroup = false;
                   nd_disccount = Z0; nd_discoff = Z0; nd_members = [] } in
         let (d, p) = gen_objsize n in
